@@ -377,10 +377,12 @@ class Run:
                     add_teardown_callback(probe, cb["pass_exception"])
             elif route == "resource":
                 n = cb.get("ntypes", 0)
+                # (every other resource is an empty list: distinct objects that all compare equal - each has a teardown of its own)
+                value: Any = [] if cb["id"] % 2 else object()
                 if n == 0:
-                    self.ctx.add_resource(object(), f"res{cb['id']}", teardown_callback=probe)
+                    self.ctx.add_resource(value, f"res{cb['id']}", teardown_callback=probe)
                 else:
-                    self.ctx.add_resource(object(), f"res{cb['id']}", [RES_TYPES[j] for j in range(n)], teardown_callback=probe)
+                    self.ctx.add_resource(value, f"res{cb['id']}", [RES_TYPES[j] for j in range(n)], teardown_callback=probe)
         except BaseException as e:
             self.trace.log("register-failed", cb["id"], error=describe_exc(e))
             raise
